@@ -529,7 +529,8 @@ Lemma nt_%(op)d : forall %(quant)s, routine_nt %(op)d %(args)s.
 Proof.
   intros %(quant)s pc sp rk m x m0 s1 Hi Hm. change (tbl_proc %(op)d s1) with (%(proc)s s1). cbv beta delta [%(proc)s].
   crun no_call no_call no_sethook no_hook.
-  all: cbv beta; (split; [ exact I | split; [ first [ assumption | eapply inv_relax; [eassumption | relax_tac] ] | assumption ] ]).
+  all: cbv beta; first [ solve [ split; [ exact I | split; [ first [ assumption | eapply inv_relax; [eassumption | relax_tac] ] | assumption ] ] ]
+                       | fail 2 "%(proc)s (opcode %(op)d) does not fall through leaving PC, stepPC, PBR, M, X, E, the flags and memory alone when %(var)s = %(val)d" ].
 Qed.
 Lemma cbr_%(op)d : contract_br_at %(op)d.
 Proof.
